@@ -944,13 +944,22 @@ fn build(spec: &Arc<Spec>, exec: &Exec, sh: &Arc<Shared>, names_ok: &Arc<AtomicB
             }
         }
     }
-    if !spec.clock.is_empty() || spec.tolerance.is_some() {
-        init = init.set_clock(ScriptedClock { answers: spec.clock.clone(), n: 0 });
-    } else {
-        init = init.set_clock(ScriptedClock { answers: Vec::new(), n: 0 });
-    }
-    if let Some(tol) = spec.tolerance {
-        init = init.set_clock_tolerance(Duration::from_nanos(tol));
+    // The builder calls are order-independent: clock and tolerance are set in
+    // either order, and the clock is sometimes set twice (the last one counts).
+    let clock = ScriptedClock { answers: spec.clock.clone(), n: 0 };
+    match (spec.seed % 3, spec.tolerance) {
+        (1, Some(tol)) => {
+            init = init.set_clock_tolerance(Duration::from_nanos(tol)).set_clock(clock);
+        }
+        (2, Some(tol)) => {
+            init = init.set_clock(nexosim::time::NoClock::new()).set_clock_tolerance(Duration::from_nanos(tol)).set_clock(clock);
+        }
+        (_, tol) => {
+            init = init.set_clock(clock);
+            if let Some(tol) = tol {
+                init = init.set_clock_tolerance(Duration::from_nanos(tol));
+            }
+        }
     }
     if spec.timeout_ms > 0 {
         init = init.set_timeout(Duration::from_millis(spec.timeout_ms));
